@@ -11,7 +11,9 @@
 //	-child stress : many goroutines issue calls, pushes, replies, SetID, Swap access, age
 //	                changes, Close, GetSession / RangeSession / CountSession on shared
 //	                sessions over rawproto, thrift-binary and thrift-struct, plus a redial
-//	                scenario and an overloader-update scenario.
+//	                scenario and an overloader-update scenario; the results of completed calls
+//	                (reply metadata, result value, status ...) are kept and re-read during the
+//	                later traffic of the same and of other sessions (keep.go).
 //
 // The parent parses the race reports. A report is a candidate violation only when BOTH access
 // stacks contain a frame of github.com/henrylee2cn/erpc/v6/...; its key is the pair of the
@@ -265,7 +267,7 @@ func reportKey(r report) (string, bool) {
 
 func parent(cfg *RunCfg) {
 	st := NewStats("C14", cfg)
-	st.Rule = "micro: generated well-formed lock/access traces (2-3 goroutines, <=2 RW locks, <=2 locations, <=4 accesses per location) executed on their schedule under the race detector, distinct by trace, non-trivial = at least two accesses by different goroutines to one location; stress: seconds of concurrent API traffic per scenario, evaluations = operations issued"
+	st.Rule = "micro: generated well-formed lock/access traces (2-3 goroutines, <=2 RW locks, <=2 locations, <=4 accesses per location) executed on their schedule under the race detector, distinct by trace, non-trivial = at least two accesses by different goroutines to one location; about one case in seven is a result hand-over (Model/Handed.v: copy or alias of a recycled object, then generated user reads / recycling writes); stress: seconds of concurrent API traffic per scenario, evaluations = operations issued; every completed call is snapshotted, kept and re-read during later traffic (values compared with the snapshot, reads instrumented by the race detector)"
 	w := NewCaseWriter(cfg)
 	bin := buildRace(cfg)
 
@@ -333,6 +335,7 @@ func parent(cfg *RunCfg) {
 	// the stress child is restarted after a crash (a panic of the library under concurrent use is
 	// an observation of its own) until the time budget is used
 	var slog, sout string
+	var crashes [][2]string
 	seen := map[string]bool{}
 	idx := 0
 	endAt := time.Now().Add(time.Duration(dur) * time.Second)
@@ -351,9 +354,24 @@ func parent(cfg *RunCfg) {
 		st.Count("stress:child-crash")
 		if !seen[key] {
 			seen[key] = true
-			st.Fail(w.Total+idx, key, "the library crashed the process under concurrent API use: "+strings.SplitN(what, "\n", 2)[0], what)
-			idx++
+			crashes = append(crashes, [2]string{key, what})
 		}
+	}
+	// value-level oracle of the stress child (keep.go): what a completed call hands out must not
+	// change while the sessions keep receiving
+	for _, l := range strings.Split(sout, "\n") {
+		if !strings.HasPrefix(l, "ORACLE ") {
+			continue
+		}
+		parts := strings.SplitN(strings.TrimPrefix(l, "ORACLE "), " | ", 2)
+		key := strings.TrimSpace(parts[0])
+		st.Count("stress:value-oracle-failure")
+		if seen[key] || len(parts) < 2 {
+			continue
+		}
+		seen[key] = true
+		st.Fail(w.Total+idx, key, "what a completed call hands to its caller is not what the reply carried / does not stay so while the sessions keep receiving: "+parts[1], l)
+		idx++
 	}
 	reps := parseReports(slog)
 	for _, r := range reps {
@@ -371,6 +389,16 @@ func parent(cfg *RunCfg) {
 		}
 		seen[key] = true
 		st.Fail(w.Total+idx, key, "data race between "+strings.Replace(key, "~", " and ", 1)+" ("+r.kinds[0]+" / "+r.kinds[1]+")", r.text)
+		idx++
+	}
+	// a panic of the library under concurrent use (reported after the races / value changes that
+	// usually explain it)
+	for _, c := range crashes {
+		frame := ""
+		if at := strings.LastIndex(c[0], "@"); at >= 0 {
+			frame = " in " + c[0][at+1:]
+		}
+		st.Fail(w.Total+idx, c[0], "the library crashed the process under concurrent API use: "+strings.SplitN(c[1], "\n", 2)[0]+frame, c[1])
 		idx++
 	}
 	ops := 0
